@@ -229,7 +229,13 @@ func propC16(e *Env) {
 	mustWrite(path, initial, os.O_CREATE|os.O_WRONLY|os.O_TRUNC)
 	seq := c16Decode(e)
 
-	r := newTailRig(e, tailer.LogPatterns([]string{path}))
+	pats := []string{path}
+	if e.Choose("knob", 3) == 0 {
+		// the path also matches a second, overlapping pattern polled by its own goroutine
+		pats = append(pats, filepath.Join(root, "lo?"))
+		e.Probe("overlapping_patterns")
+	}
+	r := newTailRig(e, tailer.LogPatterns(pats))
 	if !r.quiesce() {
 		return
 	}
@@ -341,6 +347,22 @@ func propC16(e *Env) {
 	if e.Failed() {
 		r.cancel()
 		return
+	}
+	if exists && e.Choose("gen", 6) == 0 {
+		// a large burst (several read buffers) arrives and tailing stops before the next poll:
+		// a stopping stream still reads what is there
+		k := 2600 + e.Choose("gen", 600)
+		var sb strings.Builder
+		for i := 0; i < k; i++ {
+			n++
+			l := fmt.Sprintf("g%d-%d-%s", gen, n, strings.Repeat("z", 110))
+			sb.WriteString(l + "\n")
+			want = append(want, pending+l)
+			pending = ""
+		}
+		mustWrite(path, sb.String(), os.O_APPEND|os.O_WRONLY)
+		did = append(did, "burst")
+		e.Probe("unread_backlog_at_stop")
 	}
 	// tailing stops: the fragment is delivered once as its own line
 	if pending != "" {
